@@ -69,6 +69,7 @@ def findings(repo, prog):
         _g9(f, out)
         _g10(f, out)
         _g11(f, out)
+        _g14(f, out)
         _g5b(f, out)
         _g4c(f, out)
     _g1(repo, prog, out)
@@ -922,6 +923,61 @@ def _g11(f, out):
                            '%s has no default and is not inside a handler for %s: it raises for every '
                            'character without a Unicode name (control characters, private-use and '
                            'unassigned code points)' % (unparse(x), exc), '%s: %s' % (f.qual, unparse(x))))
+
+
+# --------------------------------------------------------------------------- G14
+
+
+_LIT_TYPES = {ast.List: list, ast.Tuple: tuple, ast.Dict: dict, ast.Set: set}
+
+
+def _literal_type(e):
+    if type(e) in _LIT_TYPES:
+        return _LIT_TYPES[type(e)]
+    if isinstance(e, ast.Constant) and isinstance(e.value, (str, bytes, int, float)) and not isinstance(e.value, bool):
+        return type(e.value)
+    return None
+
+
+def default_type_mismatch(fnode):
+    """a local bound to `D.pop(k, <literal>)` / `D.get(k, <literal>)` / `getattr(o, n, <literal>)` and
+    never re-bound has a method called on it that the literal's type does not have: AttributeError
+    whenever the default is taken.  Yields (use node, variable, literal text, method)."""
+    binds = {}
+    for st in walk_fn(fnode):
+        if isinstance(st, ast.Assign) and len(st.targets) == 1 and isinstance(st.targets[0], ast.Name):
+            binds.setdefault(st.targets[0].id, []).append(st)
+        elif isinstance(st, (ast.AugAssign, ast.For, ast.With)):
+            for n in ast.walk(st.target if isinstance(st, (ast.AugAssign, ast.For)) else st):
+                if isinstance(n, ast.Name) and isinstance(n.ctx, ast.Store):
+                    binds.setdefault(n.id, []).append(st)
+    for name, sts in binds.items():
+        if len(sts) != 1 or not isinstance(sts[0], ast.Assign):
+            continue
+        v = sts[0].value
+        lit = None
+        if isinstance(v, ast.Call) and call_name(v) in ('pop', 'get') and len(v.args) == 2 and call_recv(v) is not None:
+            lit = v.args[1]
+        elif isinstance(v, ast.Call) and isinstance(v.func, ast.Name) and v.func.id == 'getattr' and len(v.args) == 3:
+            lit = v.args[2]
+        if lit is None:
+            continue
+        ty = _literal_type(lit)
+        if ty is None:
+            continue
+        for x in walk_fn(fnode):
+            if isinstance(x, ast.Attribute) and isinstance(x.ctx, ast.Load) and isinstance(x.value, ast.Name) \
+                    and x.value.id == name and not hasattr(ty, x.attr):
+                yield x, name, unparse(lit), x.attr, ty.__name__, sts[0]
+
+
+def _g14(f, out):
+    for x, name, lit, attr, tyname, bind in default_type_mismatch(f.node):
+        out.append(Finding('G14', 'REFUTED', f.mod, enclosing_stmt(x) or x, f.key,
+                           '%s is bound by `%s` and then %s.%s is used: the default %s is a %s, which has no '
+                           'attribute %s -- AttributeError whenever the key is absent'
+                           % (name, short(bind, 70), name, attr, lit, tyname, attr),
+                           '%s: %s.%s with default %s' % (f.qual, name, attr, lit)))
 
 
 # --------------------------------------------------------------------------- G10
